@@ -48,7 +48,8 @@ func c04Doc(c c04Case) ref.Doc {
 		s["default_lifetime"] = c.Lifetime
 	}
 	return ref.Doc{Ifaces: []ref.Iface{
-		{Scalars: s, Prefix: []ref.Table{{"prefix": "2001:db8:1::/64"}}, RDNSS: []ref.Table{{"servers": []string{"2001:db8::53"}}}},
+		{Scalars: s, Prefix: []ref.Table{{"prefix": "2001:db8:1::/64"}}, RDNSS: []ref.Table{{"servers": []string{"2001:db8::53"}}},
+			DNSSL: []ref.Table{{"domain_names": []string{"LAN.Example.COM", "b.example"}}}},
 		{Scalars: ref.Table{"name": "eth1", "advertise": true, "default_lifetime": "100s", "max_interval": "50s"}},
 		{Scalars: ref.Table{"name": "eth2", "monitor": true}},
 	}}
@@ -87,7 +88,7 @@ func c04Run(t *testing.T, c c04Case) (x *vsched.Exec, out [][2]string) {
 			h := crhttp.NewHandler(w.cctx.ll, w.st, *cfg, nil)
 			fwd := c.Fwd
 			expectRA := func(forwarding bool, final bool) *ndp.RouterAdvertisement {
-				st := ref.State{Name: "eth0", MAC: w.mac.String(), Forwarding: forwarding}
+				st := ref.State{Name: "eth0", MAC: w.macOf(0).String(), Forwarding: forwarding}
 				ifi := wantCfg.Interfaces[0]
 				if final {
 					ifi.DefaultLifetime = 0
@@ -215,7 +216,12 @@ func c04Run(t *testing.T, c c04Case) (x *vsched.Exec, out [][2]string) {
 						vsched.Sleep(4 * time.Second)
 						dead = true
 					case "ra-in":
-						other := expectRA(true, false)
+						// The other router's RA arrives through the wire: it shares no memory with
+						// our configuration or with the reference.
+						other, werr := c12Wire(expectRA(true, false))
+						if werr != nil {
+							panic(werr)
+						}
 						a.inject(inMsg{m: other, hop: 255, from: rsFrom("fe80::7", false).from})
 						vsched.Sleep(100 * time.Millisecond)
 						if !fwd && configured > 0 {
